@@ -462,6 +462,7 @@ def _process(cls: t.Type[PaneBase], opts: PaneOptions):
     specs: t.Dict[str, FieldSpec] = {}
 
     # collect FieldSpecs from base classes
+    owners: t.Dict[str, type] = {}  # class each spec was (last) declared in
     for base in reversed(cls.__mro__[1:]):
         if not hasattr(base, PANE_INFO):
             continue  # not a pane dataclass
@@ -470,7 +471,12 @@ def _process(cls: t.Type[PaneBase], opts: PaneOptions):
         # apply typevar replacements
         bound_vars = t.cast(t.Mapping[t.Union[t.TypeVar, ParamSpec], type], base.__dict__.get(PANE_BOUNDVARS, {}))
         specs.update(cls_specs)
-        specs = {k: spec.replace_typevars(bound_vars) for (k, spec) in specs.items()}
+        owners.update((k, base) for k in cls_specs)
+        # (only to the fields `base` has itself: a sibling base may use the same type variable for something else)
+        specs = {
+            k: spec.replace_typevars(bound_vars) if issubclass(base, owners[k]) else spec
+            for (k, spec) in specs.items()
+        }
 
     annotations = get_type_hints(cls)
     kw_only = opts.kw_only  # current kw_only state
